@@ -665,7 +665,9 @@ LEVEL_TEXT = ("Lean 4 theorems over R for the model of the SN likelihoods (custo
               "free, and (m,a) == (m+mu(a')-mu(a),a'); scatter gives C+sigma^2*1 as a new matrix, any call sequence "
               "leaves the instance unchanged and each value equals that of a fresh instance; with the matrix inverse and "
               "log|det| the custom likelihood is the log of the multivariate-normal density (for diagonal covariance: "
-              "the product of Mathlib's gaussianPDFReal); the lens-side offset equals the SN-side modulus difference "
+              "the product of Mathlib's gaussianPDFReal), and the order in which the supernovae are listed does not matter "
+              "(custom_order_invariant: magnitudes, redshifts, covariance and moduli permuted consistently, any permutation); "
+              "the lens-side offset equals the SN-side modulus difference "
               "above the 1e-5 floor, so a SN at the lens-side predicted magnitude has zero SN-side residual.  The model "
               "is tied to the code by differential execution of the same definitions at Float, and every clause of the "
               "property is evaluated on the real classes (incl. CosmoLikelihood with a lens and SNe sharing one "
